@@ -217,7 +217,11 @@ def load(modname, extra=None):
     mod = importlib.import_module(modname)
     npx = NP()
     for k in _FUNCS:
-        if hasattr(mod, k) and not isinstance(getattr(mod, k), types.ModuleType):
+        cur = getattr(mod, k, None)
+        if cur is not None and not isinstance(cur, types.ModuleType) and (isinstance(cur, _np.ufunc) or
+                                                                          getattr(cur, "__module__", None) in ("math", "numpy")
+                                                                          or getattr(cur, "__name__", None) == k):
+            # numeric functions only (a module-level `log = logging.getLogger(...)` is not one)
             setattr(mod, k, _method(k))
     if hasattr(mod, "np"):
         mod.np = npx
